@@ -185,7 +185,29 @@ ROUTES = [
     ("cps", lambda t: "String.from_code_points([%s])" % ", ".join(str(ord(c)) for c in t)),
     ("iter", lambda t: '(|| { var r = ""; for c in "%s" { r = r + c; } return r; })()' % t),
 ]
-TEXTS = ["ab", "abc", "né", "€uro", "x😀y", "next", "context", "len", "Key", "key"]
+TEXTS = ["ab", "abc", "né", "€uro", "x😀y", "next", "context", "len", "Key", "key",
+         # long texts (>= 32 bytes, the sizes at which a hasher might switch to word-at-a-time mixing), cut out of
+         # longer strings at every offset mod 8 by the slice/split/replace routes below
+         "customer_account_identifier_primary", "a_rather_long_field_name_of_40_bytes_xxxx",
+         "0123456789abcdef0123456789abcdef", "0123456789abcdef0123456789abcdef0", "длинное_имя_поля_в_кодировке_utf8",
+         "k" * 64, "k" * 63 + "j", "the quick brown fox jumps over the lazy dog; twice: " * 2]
+PADS = ["", "#", "<>", "abc", "[__]", "12345", "sixsix", "seven77", "eightate", "ninenine9"]
+
+
+def _slice_pad(t, pad):
+    n0 = len(pad.encode())
+    return '("%s%s>"[%d..%d])' % (pad, t, n0, n0 + len(t.encode()))
+
+
+def _split_pad(t, pad):
+    return '("%s,%s,zz".split(",")[1])' % (pad, t)
+
+
+for _p in PADS:
+    ROUTES.append(("slice@%d" % len(_p), (lambda t, _p=_p: _slice_pad(t, _p))))
+    ROUTES.append(("split@%d" % (len(_p) + 1), (lambda t, _p=_p: _split_pad(t, _p))))
+ROUTES.append(("replace_long", lambda t: '("%s@@".replace("@@", "%s"))' % (t[:len(t) // 3], t[len(t) // 3:])))
+ROUTES.append(("concat3", lambda t: '("%s" + "%s" + "%s")' % (t[:1], t[1:len(t) // 2], t[len(t) // 2:])))
 
 
 def gen_program(rng):
@@ -211,6 +233,11 @@ def gen_program(rng):
     lines.append("print(a.len() == b.len());")
     expect.append("true" if len(t1.encode()) == len(t2.encode()) else "false")
     lines.append("print((a, 1) == (b, 1));")
+    expect.append("true" if t1 == t2 else "false")
+    # the same text selects the same map entry / global however it was produced (hash AND equality)
+    lines.append("var m2 = {b: 7}; print(m2.get(a));")
+    expect.append("7" if t1 == t2 else "nil")
+    lines.append("var s2 = {(a, 0): 1}; print(s2.has_key((b, 0)));")
     expect.append("true" if t1 == t2 else "false")
     return "\n".join(lines), expect, (r1[0], r2[0], t1 == t2, filler)
 
